@@ -49,6 +49,11 @@
 //	             marker, opaqueFloat); intN(x) of an exactFloat x ↦ BitVec.ofInt; struct (pointer)
 //	             locals / results of kernelSpec.structs ↦ Lean records with field assignment;
 //	             aliases of reads through a parameter (aliases); untranslated locals (ignoreVars)
+//	             (see kernels_canid.go): a call of an earlier kernel on a range variable (its
+//	             parameterised reads ↦ projections of the element); slices.Insert / slices.Delete /
+//	             append on the state slice as GoSem.sliceInsert / sliceDelete (Res.panic out of
+//	             range, sliceOpsPanic); error results that keep the argument name (errLean);
+//	             methods that return their receiver (fluent); local lists of scalars
 package main
 
 import (
@@ -114,7 +119,15 @@ type kernelSpec struct {
 	aliases     map[string]string // local `x := <read through a parameter>` that is only the root of parameterised reads
 	ignoreVars  []string          // locals that are NOT translated (statements that only concern them are dropped)
 	opaqueFloat bool              // a float64 stored in an `any` is the marker Any.float64 (its expression is not translated)
+
+	// extensions used by the kernels of kernels_canid.go
+	errLean       string // != "": the Lean type of an error cause in this kernel (default Cause), see errValueHook
+	sliceOpsPanic bool   // slices.Insert / slices.Delete on the state slice are GoSem.sliceInsert / sliceDelete (Res: they panic out of range)
+	fluent        bool   // the method returns its receiver (`return b`): no result
 }
+
+// errValueHook: translation of an error result in kernels with errLean (kernels_canid.go)
+var errValueHook func(t *ktr, e ast.Expr) string
 
 // kOpaque: `x := <fun>(a1, .., an)` is replaced by the Lean term `lean` (`%1` .. `%n` = the
 // translated arguments, whose types must be `args`); the result has type `res`.  The callee is
@@ -332,6 +345,9 @@ func (t kType) lean() string {
 	case kList:
 		return "List " + leanArg(t.elem)
 	case kErrT:
+		if t.elem != "" {
+			return "Option " + leanArg(t.elem)
+		}
 		return "Option Cause"
 	case kElemOpt:
 		return "Option " + leanArg(t.elem)
@@ -569,7 +585,7 @@ func unparen(e ast.Expr) ast.Expr {
 func (t *ktr) typeOf(ty types.Type, at ast.Node) kType {
 	ty = types.Unalias(ty)
 	if types.Identical(ty, types.Universe.Lookup("error").Type()) {
-		return kType{k: kErrT}
+		return kType{k: kErrT, elem: t.spec.errLean}
 	}
 	if t.elemGoType != nil && types.Identical(ty, t.elemGoType) {
 		return kType{k: kElemOpt, elem: t.stateSlice().elem}
@@ -1157,6 +1173,9 @@ var kCauses = map[string]bool{}
 // struct type T and its other fields are ignored: the sentinel is what the model compares).
 func (t *ktr) errValue(e ast.Expr) string {
 	e = unparen(e)
+	if t.spec.errLean != "" && errValueHook != nil {
+		return errValueHook(t, e)
+	}
 	sentinel := func(x ast.Expr) (string, bool) {
 		id, ok := unparen(x).(*ast.Ident)
 		if !ok {
@@ -2049,6 +2068,9 @@ func translateKernel(spec *kernelSpec, p *packages.Package, funcs map[types.Obje
 		allFields = append(allFields, f)
 		t.fields[v.expr] = &kFieldUse{f: f, ty: v.ty, used: true}
 		viaRoot[v.expr] = strings.SplitN(v.expr, ".", 2)[0]
+		if target, isAlias := spec.aliases[viaRoot[v.expr]]; isAlias {
+			viaRoot[v.expr] = strings.SplitN(target, ".", 2)[0] // a read through the alias of a read through a parameter
+		}
 	}
 	ast.Inspect(fd.Body, func(n ast.Node) bool {
 		e, ok := n.(ast.Expr)
@@ -2183,6 +2205,10 @@ func translateKernel(spec *kernelSpec, p *packages.Package, funcs map[types.Obje
 	for _, fl := range fd.Type.Results.List {
 		if len(fl.Names) > 0 {
 			t.fail(fl, "named results")
+		}
+		if spec.fluent && fd.Recv != nil && len(fd.Recv.List) == 1 &&
+			types.Identical(t.info.Types[fl.Type].Type, t.info.Types[fd.Recv.List[0].Type].Type) {
+			continue // the method returns its receiver (checked at every return): the state is the result
 		}
 		t.res = append(t.res, t.typeOf(t.info.Types[fl.Type].Type, fl))
 	}
